@@ -23,9 +23,17 @@ def build_case(seed, prop):
     opts = {"boundary": 0.12 if prop == "C02" else 0.06, "let": 0.05, "big_coeff": 0.05}
     if gen.LOGICS[logic]["dl"]:
         opts["boundary"] = 0.2
+    if logic in ("QF_UF", "QF_UF_prop"):
+        opts["diamond"] = 0.3
     g = gen.ScriptGen(seed, logic=logic, opts=opts)
     options = configs.random_config(rng, allow_nonincremental=True)
     incremental = not configs.has(options, ":incremental", "false")
+    if logic == "QF_UF" and rng.random() < 0.75:
+        options = [o for o in options if not o[0].startswith(":produce-")]
+        cmds = g.header(options) + g.diamond_script() + [{"k": "check-sat"}]
+        if incremental and rng.random() < 0.4:
+            cmds += [{"k": "push", "n": 1}] + g.diamond_script() + [{"k": "check-sat"}]
+        return cmds
     cmds = g.header(options)
     if incremental and rng.random() < 0.6:
         cmds += g.history(rng.randint(6, 16))
@@ -125,6 +133,7 @@ def replay(prop):
 def main(prop, tier, replay_path=None):
     camp = Campaign(prop, tier)
     n = N_QUICK[prop] if tier == "quick" else N_THOROUGH[prop]
+    n = int(__import__("os").environ.get("VERIF_CASES", n))     # experiments only
     base = camp.seed * 1000003
     camp.rule = ("generated scripts over all 17 logic names x option vectors (engines, seeds, restarts, tracking, "
                  ":incremental false) x single-query/push-pop histories; every definitive check-sat answer is compared "
